@@ -1,7 +1,7 @@
 (* C13, decompression part - live heap bounded by a linear function of the worker count. *)
 From Coq Require Import List NArith Bool.
 From LBZ Require Import Gen.Consts SchedX.XState Gen.SchedXTab SchedX.XSet SchedX.XModel SchedX.XInvDefs
-  SchedX.XCount SchedX.XC11.
+  SchedX.XCount SchedX.XC11 SchedX.XOwn SchedX.XC11b.
 Import ListNotations.
 Local Open Scope N_scope.
 
@@ -9,9 +9,8 @@ Local Open Scope N_scope.
    4*900000 bytes + tables - at most one per held work unit -, output buffers of
    out_granul bytes) never exceeds total_in + n + total_out, for every input, whatever
    its length or expansion ratio.
-   PARTIAL: the 56-byte unord_blk records are not covered: on the source without the
-   F3 repair they leak (one per dropped speculative job); with it their number is bounded
-   by the capacity of unord_q plus the number of running retrievers, which is not proved. *)
+   PARTIAL (kept): the 56-byte unord_blk records are not counted here; they are covered by
+   C13x_unord_records below. *)
 Theorem C13x_buffers_partial :
   forall n small ultra st, reach gen_cfg (init_dec n small ultra) st -> x_failed st = None ->
     big_buffers st <= dec_total_in small n + n + dec_total_out small n.
@@ -20,3 +19,22 @@ Proof. exact C13x_buffers_gen. Qed.
 Theorem C13x_linear :
   forall small, exists a b, forall n, dec_total_in small n + n + dec_total_out small n = a * n + b.
 Proof. exact C13x_linear_gen. Qed.
+
+(* The unord_blk records (56 bytes each).  A record is either in unord_q - at most the capacity
+   unord_q was allocated with, because do_scan() tests `size(unord_q) >= unord_cap` before it
+   records a candidate (repair of finding F9) - or it is referenced by its own retrieve job, which
+   holds a work unit (every path that drops a job gives the record back: repair of finding F3).
+   So at most cap_unord_q + n records are alive, for every input.  On the source without the
+   capacity test the number is not bounded by any function of n: notes/XF9Refuted_before_fix.v
+   (C13x_unord_count_refuted, 100 records with 2 workers).
+   [preach]: every POk label advances the parser's bit position by at least 32 bits, which
+   holds of parse() (see Properties_C11x.C11x_capacity). *)
+Theorem C13x_unord_records :
+  forall n small ultra st, preach gen_cfg (init_dec n small ultra) st -> x_failed st = None ->
+    N.of_nat (length (x_unords st)) <= cap_unord_q (dec_total_in small n) n (dec_total_out small n) + n.
+Proof. exact C13x_unord_records_gen. Qed.
+
+Theorem C13x_unord_records_linear :
+  forall small, exists a b, forall n, 1 <= n ->
+    cap_unord_q (dec_total_in small n) n (dec_total_out small n) + n = a * n - b.
+Proof. exact C13x_unord_linear_gen. Qed.
